@@ -89,7 +89,7 @@ func c16Run(in *c16Input) Res {
 		select {
 		case r := <-done:
 			return r
-		case <-time.After(60 * time.Second):
+		case <-hangAfter(60 * time.Second):
 			return Err("hang")
 		}
 	})
